@@ -1,61 +1,71 @@
 """CrossHair harnesses for C34 - permission checks follow the declared access rules.
 
-What runs: the REAL `Database.set_perms_for`, `perm`, `AccessRule.__init__`, `AccessRule.exclude`, `has_perm`,
-`can_view/can_edit/can_create/can_delete`, `get_user_groups`, `get_user_roles`, `get_object_labels`, the three getter
-decorators, `Database.to_json` and `Database._get_schema_dict`, on a real mapped model
+What runs: the REAL `Database.set_perms_for`, `perm`, `_split_names`, `AccessRule.__init__`, `AccessRule.exclude`,
+`has_perm`, `can_view/can_edit/can_create/can_delete`, `get_user_groups`, `get_user_roles`, `get_object_labels`, the
+three getter decorators, `Database.to_json` and `Database._get_schema_dict`, on a real mapped model
 
-    class A(db.Entity):  id, x = Optional(int), h = Optional(int, hidden=True), b = Optional('B')
+    class A(db.Entity):  id, x = Optional(int), h = Optional(int, hidden=True), b = Optional('B')   (+ discriminator)
     class A2(A):         y = Optional(int)
     class B(db.Entity):  id, a_set = Set('A')
 
 bound to the real SQLiteProvider over the fake pool (`engine.env.mock_database('sqlite')`).  Every explored path
 re-declares the rule set through the public API (the rule sets of the three entities are emptied first), opens a
-db_session, creates the objects a=A[1], a2=A2[2], b=B[1] in it (a.b = b) and asks the real functions.
+db_session, creates the objects a=A[1] (a.b = b), a2=A2[2], b=B[1] in it and asks the real functions.
 
 Symbolic (CrossHair): for each of TWO declared rules the permission name(s), the entities named in set_perms_for, the
 group / role / label requirement, the excluded entity and the excluded attribute (either side of the relationship);
 what the user-groups / user-roles / object-labels getters return (also the form: None, a single name, a set), whether
-the user is None, a plain object or the object itself (role 'self').  All of these are small selectors, so CrossHair's
-"Confirmed over all paths" means: every combination inside the stated bound was executed through the real code.
-One harness cannot hold the whole product (measured: 20 paths/s; two fully free rules x user x target are > 10^6
-paths), so the product is cut into harness functions that keep some selectors fixed (listed per harness in
-checks/c34.py: BOUNDS); every harness asks ALL targets of its kind (entities A, A2, B / the seven attributes / the three
-objects) with all four can_* functions in one path, twice (second pass in reverse order: "repeated checks give the same
-answer"), and - because the rules live in Python sets ordered by object identity - under BOTH iteration orders of the
-two rules (the rules are re-declared until the order is reversed; fresh db_session for each order).
+the user is None, a plain object or the object itself (role 'self'); the shape of the to_json call.  All of these are
+small selectors, so CrossHair's "Confirmed over all paths" means: every combination inside the stated bound was
+executed through the real code.  One harness cannot hold the whole product (measured 12-25 paths/s; two fully free rules
+x user x target are > 10^6 paths), so the product is cut into harness functions that keep some selectors fixed (listed
+per harness in checks/c34.py: BOUNDS).  Every harness asks ALL targets of its kind (entities A, A2, B / the eight
+attributes / the three objects) in one path, twice (second pass in reverse order: "repeated checks give the same
+answer"), and - because the rules live in Python sets ordered by object identity - under BOTH iteration orders of two
+rules that share a set (the rules are re-declared until the order is reversed; fresh db_session for each order), so a
+counterexample never depends on memory addresses.
 
 Reference (stated here, not copied from pony; `rules` = the declarations as data):
   * a rule COVERS entity E for permission p iff p is one of its permissions and E is one of the entities of its
-    set_perms_for block or a subclass of one; it MATCHES the user iff the user's groups (getter results + 'anybody')
-    contain all its groups; exclude(E) excludes E and its subclasses, exclude(attr) excludes that attribute.
+    set_perms_for block or a subclass of one; it MATCHES the user iff the user's groups (getter results + 'anybody';
+    None has only 'anybody') contain all its groups; exclude(E) excludes E and its subclasses, exclude(attr) excludes
+    that attribute.
   * entity E:   granted iff some covering, matching rule does not exclude E.
-  * object o:   granted iff some rule covering type(o) matches, the user's roles on o contain the rule's roles, o's
-                labels contain the rule's labels, and type(o) is not excluded by that rule.
+  * object o:   granted iff some rule covering type(o) matches, the user's roles on o (getter results, + 'self' when
+                the user is o) contain the rule's roles, o's labels contain the rule's labels, and type(o) is not
+                excluded by that rule.
   * attribute:  side(t) := some rule covering t's entity matches and excludes neither that entity nor t; a hidden
                 attribute is never granted; a non-relationship attribute is granted iff side(t);
                 a relationship attribute t with reverse r is granted iff side(t) AND side(r)
                 ("minus exclusions, including exclusions on the reverse side of relationships").
   * can_view = view or edit; can_edit = edit; can_create = create; can_delete = delete.
-  * to_json(data) raises PermissionError iff an object it would have to emit is not viewable, otherwise every emitted
-    object is viewable; the schema lists exactly the viewable entities and, of those, the viewable attributes whose
-    reverse entity and reverse attribute are viewable too.
+  * to_json(data) raises PermissionError iff an object it has to emit (the data objects and the objects reached through
+    `include`d relationship attributes) is not viewable, otherwise it emits exactly those objects; the schema lists
+    exactly the viewable entities and, of those, the viewable attributes whose reverse entity and reverse attribute are
+    viewable too.
 
-Interpretation recorded.  The relationship rule is the only place where the property text leaves room; three modes are
-therefore provided for attribute targets:
-  exact  - the AND reading above (the reading under which reverse-side exclusions SUBTRACT, as the property says, and
-           the one pony's own consumer `_get_schema_dict` and the inner `if not reverse_rules: return False` imply);
-  deny   - reading-independent upper bound: whatever the reading, an attribute for which neither side(t) nor side(r)
-           holds must be denied (for a non-relationship attribute: not side(t) => denied);
+Interpretation recorded.  The relationship rule is the only place where the property text leaves room (the permission
+API is not documented anywhere in /repo); three modes are therefore provided for attribute targets:
+  exact  - the AND reading above: the reading under which reverse-side exclusions SUBTRACT, as the property says, and
+           the one that pony's own consumer `_get_schema_dict` and the inner `if not reverse_rules: return False` of
+           has_perm imply;
+  deny   - reading-independent upper bound: an attribute for which neither side(t) nor side(r) holds must be denied;
   grant  - reading-independent lower bound: side(t) and (no reverse or side(r)) => granted.
-`deny` and `grant` together are implied by `exact`, by the OR reading ("either side suffices") and by every reading in
-between.  Object targets have an `_rest` twin harness that leaves out targets whose entity is excluded by some rule
-(the region of the object-level finding) so that the remaining space is still decided.
+`deny` and `grant` are implied by `exact`, by the OR reading ("either side suffices") and by every reading in between.
+Roles and labels are not consulted for entity and attribute targets (there is no object to ask about).
+`object_exclusions_rest` / `to_json_objects_rest` leave out the objects whose entity some rule excludes (the region of
+the object-level finding) so that the remaining space is still decided while that finding exists.
 
 Deviations from DESIGN.md C34: the design's single harness over two fully symbolic rules is split (see above); the
-group/role/label subset semantics are decided in separate single-rule harnesses with two names each; to_json and the
-schema filter, which the design put outside, are inside (they run without SQL on freshly created objects).
-Scaffolding that is not under test (db_session enter/exit, creating the three objects) runs with CrossHair's tracer
-switched off; everything from `set_perms_for` to the `can_*` answer is traced.
+subset semantics of groups / roles / labels are decided in single-rule harnesses with two names each; to_json and the
+schema filter, which the design put outside, are inside (they run without SQL on objects created in the session).
+Tracing: everything symbolic is realised while the declarations are decoded, so from `declare()` on the real code runs
+on concrete values.  CrossHair's tracer is ON for the first pass of can_* / to_json / _get_schema_dict calls under the
+first rule order, and for the declarations in the harnesses `groups`, `roles`, `labels`, `permissions`,
+`object_userkinds`; it is OFF (crosshair.tracers.NoTracing) for scaffolding - db_session enter/exit, creating the
+objects, the repeated pass, the run under the reversed order, the reference evaluation - and for the declarations of
+the two-rule product harnesses (sets built under the tracer are CrossHair set models, which made has_perm 3x slower).
+`check()` refuses to enter tracer-off code with anything but plain Python data.
 """
 import json, os
 from engine.ch import ok
